@@ -109,6 +109,7 @@ def run(tier, seed):
                         if compiled:
                             T = compiler.compile(T)
                         cs.add_type("T", T)
+                        touch = rnd.random() < 0.5  # use the half-built class between the steps (instances, parses)
                         for batch in batches:
                             if len(batch) == 1 and rnd.random() < 0.5:
                                 nme, t, bits = batch[0]
@@ -117,12 +118,50 @@ def run(tier, seed):
                                 with T.start_update():
                                     for nme, t, bits in batch:
                                         T.add_field(nme, resolve_type(cs, t, align), bits=bits)
+                            if touch:
+                                try:
+                                    T()
+                                    T(**{T.__fields__[0]._name: 1}) if T.__fields__[0].name else None
+                                    T(samples[0])
+                                except Exception:  # noqa: BLE001
+                                    pass
                         got = observe(T, samples)
                         ok = got == ref
                         obs = None if ok else _first_diff(ref, got)
+                        if ok:
+                            # ... and its default instances are as independent as those of the one-shot class
+                            m = T()
+                            _mutate_in_place(m)
+                            fresh = ("default", repr_value(T()), T().dumps().hex())
+                            if fresh != ref[-1]:
+                                ok, obs = False, f"after mutating one default instance in place a new default is {fresh}, one-shot default {ref[-1]}"
                     except Exception as e:  # noqa: BLE001
                         ok, obs = False, f"raises {type(e).__name__}: {e}"
                     b.case((str(fields), compiled, align, cuts), ok, observed=obs, inputs={"fields": fields, "batches": [[f[0] for f in bt] for bt in batches], "compiled": compiled, "align": align})
+    # explicit offsets (overlays): add_field(..., offset=o) == Field(..., offset=o) in a one-shot _make_struct, o = 0 included
+    from dissect.cstruct.types.structure import Field
+
+    for spec in ([("a", "uint32", None), ("b", "uint16", 0), ("c", "uint8", 6)], [("a", "uint16", None), ("b", "uint8", 1), ("c", "uint32", None)],
+                 [("a", "uint8", 2), ("b", "uint8", 0)]):
+        for compiled in (False, True):
+            try:
+                c1 = cstruct()
+                ref_T = c1._make_struct("T", [Field(n, c1.resolve(t), offset=o) for n, t, o in spec])
+                if compiled:
+                    ref_T = compiler.compile(ref_T)
+                ref = observe(ref_T, samples)
+                c2 = cstruct()
+                T = c2._make_struct("T", [])
+                if compiled:
+                    T = compiler.compile(T)
+                for n, t, o in spec:
+                    T.add_field(n, c2.resolve(t), offset=o)
+                got = observe(T, samples)
+                ok = got == ref
+                obs = None if ok else _first_diff(ref, got)
+            except Exception as e:  # noqa: BLE001
+                ok, obs = False, f"raises {type(e).__name__}: {e}"
+            b.case(("explicit-offsets", str(spec), compiled), ok, observed=obs, inputs={"fields_with_offsets": spec, "compiled": compiled})
     # self reference
     for compiled in (False, True):
         for align in (False, True):
@@ -160,3 +199,33 @@ def _first_diff(a, b):
         if x != y:
             return f"observation {i}: one-shot {str(x)[:200]} vs incremental {str(y)[:200]}"
     return "length differs"
+
+
+def _mutate_in_place(obj, depth=0):
+    from dissect.cstruct.types import Structure, Union
+
+    if depth > 3:
+        return
+    for f in type(obj).__fields__:
+        try:
+            v = getattr(obj, f._name)
+        except Exception:  # noqa: BLE001
+            continue
+        if type(v).__name__ == "UnionProxy" or isinstance(v, Union):
+            continue
+        if isinstance(v, list) and v:
+            if isinstance(v[0], Structure):
+                _mutate_in_place(v[0], depth + 1)
+            elif isinstance(v[0], int):
+                v[0] = type(v[0])(1) if type(v[0]) is not int else 1
+        elif isinstance(v, list):
+            v.append(1)
+        elif isinstance(v, Structure):
+            for g in type(v).__fields__:
+                w = getattr(v, g._name, None)
+                if isinstance(w, int) and not g.bits:
+                    try:
+                        object.__setattr__(v, g._name, 1)
+                    except Exception:  # noqa: BLE001
+                        pass
+                    break
